@@ -714,11 +714,12 @@ def mountCmd (cfg : Config) (d : Defs) (name : Bytes) : M Defs := do
   errorIfError l
   let chain ← ancestorsAndSelf d (d.layers.length + 1) name []
   let d ← chain.foldlM (fun d a => makedirs cfg d a.name) d
-  chain.foldlM (fun d a => do
-    let d ← mountOne cfg d a.name
+  let d ← chain.foldlM (fun d a => mountOne cfg d a.name) d
+  -- export links only once the whole chain is mounted (fix d8f34a4)
+  for a in chain do
     let a' ← getL d a.name
     makeExportSymlinks cfg a'
-    pure d) d
+  pure d
 
 inductive UStatus where | ok | notMounted | busy
   deriving Repr, DecidableEq, BEq
@@ -765,6 +766,12 @@ def chrootMount (cfg : Config) (d : Defs) (name : Bytes) : M Defs := do
   if !(← fIsDir (buildPath cfg l)) then fail "nobuilddir"
   pure d
 
+/-- defaults.SkeletonLayerconfig with {pkgdir} filled in (fns.Template; the value is
+    inserted as is) -/
+def skeletonText (cfg : Config) : Bytes :=
+  b!"import rbind /dev /dev\nimport proc /proc /proc\nimport rbind /sys /sys\nimport rbind /var/db/repos /var/db/repos\nimport rbind /var/cache/distfiles /var/cache/distfiles\nimport rbind $$base/"
+    ++ cfg.binPkg ++ b!" /var/cache/binpkgs"
+
 /-- InitLayercakeBase -/
 def initBase (cfg : Config) : M Unit := do
   let fs := (← getW).fs
@@ -777,7 +784,7 @@ def initBase (cfg : Config) : M Unit := do
   let files := [ (pathJoin [cfg.basepath, skeletonFile], true), (pathJoin [cfg.exportdirs, b!"index.html"], false) ]
   let haveF := files.filter (fun f => Fs.isFile fs f.1)
   let needF := files.filter (fun f => !Fs.isFile fs f.1)
-  for f in needF do fsWriteTextFile f.1 (if f.2 then b!"#skel" else b!"#html")
+  for f in needF do fsWriteTextFile f.1 (if f.2 then skeletonText cfg else b!"#html")
   if haveF.length > 0 then fail "nooverwrite"
   if missing.length == 0 && needF.length == 0 then fail "nothingtodo"
 
